@@ -29,8 +29,11 @@ What is ASSUMED about ECMAScript (not provable here, stated once):
        them; `C12_text_needs_es2019` shows the literal of a document with such a string is NOT an ES2018 expression.
   (E3) TypeScript's `e as unknown as T` erases to `e`.
 
-STILL CARRIED BY K/O ONLY: that the real printers write these characters (C06's call-by-call comparison and C12's tree
-comparison through serde_json); the parser's reading of the source text (C07).
+OPEN — STILL CARRIED BY K/O ONLY: that the real printers write these characters (C06's call-by-call comparison and C12's tree
+comparison through serde_json; `JsonText.parse` / `JsLit.expr` are applied to the MODEL's text only, no stream runs them on
+real output); the parser's reading of the source text (C07). The lifted theorems keep the hypotheses of the theorems they
+lift (`Resolved`, `RootOKp`, `ProjectOk`, distinct fragment names, every reachable spread defined); the module theorems hold
+"whenever the printer model returns"; `C12_text_needs_es2019` is one witness (U+2028).
 -/
 namespace NitroVerif.C12
 open NitroVerif NitroVerif.Gql NitroVerif.DocJson NitroVerif.ReadDoc NitroVerif.FragClosure NitroVerif.Composed
